@@ -50,7 +50,7 @@ def twin_build(bb, res, m, hundred):
     if res is None:
         am = max(ax, ay)
         r = am / hundred
-        cs, ls = int(ax / r), int(ay / r)
+        cs, ls = max(1, int(ax / r)), max(1, int(ay / r))
     else:
         cs, ls = int(ax / res[0]), int(ay / res[1])
     dX = ax / cs
@@ -59,10 +59,16 @@ def twin_build(bb, res, m, hundred):
 
 
 def twin_cell(info, x, y):
+    """__getCell; raises ZeroDivisionError for a point inside an extent with a zero cell side"""
     xmin, xmax, ymin, ymax, cs, ls, dX, dY = info
     if x < xmin or x > xmax or y < ymin or y > ymax:
         return None
     return ((x - xmin) / dX, (y - ymin) / dY)
+
+
+def flat_grid(tw):
+    """the twin built a grid with a zero cell side (flat extent, default resolution)"""
+    return tw not in (None, "zerodiv") and (tw[6] == 0 or tw[7] == 0)
 
 
 def case_bbox(case):
@@ -75,7 +81,8 @@ def case_bbox(case):
 
 
 def exact_twin(case):
-    """Fraction run of the constructor: info tuple, or 'zerodiv', or None (no feature)"""
+    """Fraction run of the constructor up to the registration loop: info tuple (a cell side may be 0: see `flat_grid`),
+    or 'zerodiv', or None (no feature)"""
     bb = case_bbox(case)
     if bb is None:
         return None
@@ -144,6 +151,8 @@ def _exact_case(case):
         return False
     if not (small_dyadic(iq[6]) and small_dyadic(iq[7]) and all(small_dyadic(v) for v in iq[:4])):
         return False
+    if iq[6] == 0 or iq[7] == 0:
+        return True        # zero cell side: only the (exact) range tests of __getCell are computed before it raises
     for p in case_points(case):
         cq = twin_cell(iq, fr(p[0]), fr(p[1]))
         cf = twin_cell(if_, fl(p[0]), fl(p[1]))
@@ -275,18 +284,20 @@ class P(Prop):
         (M, "TV.C08.segment_query_complete", "a returned request([Q1,Q2]) contains every feature listed in the cell of any point of the query segment"),
         (M, "TV.C08.segment_query_returns", "request([Q1,Q2]) does not raise when both ends are inside the extent and strictly below its upper borders"),
         (M, "TV.C08.track_query_complete", "a returned request(track) contains every feature listed in the cell of any point of any segment of the query track"),
-        (M, "TV.C08.units_sound", "points at most d apart on each axis fall in cells whose column/row indices differ by at most groundDistanceToUnits(d) = floor(d/min(dX,dY)+1)"),
+        (M, "TV.C08.units_sound", "with positive cell sides groundDistanceToUnits(d) returns floor(d/min(dX,dY)+1) and points at most d apart on each axis fall in cells whose column/row indices differ by at most that many units"),
         (M, "TV.C08.neighboringCells_square", "__neighboringcells(i,j,u) is exactly the Chebyshev square of radius u around (i,j) clipped to the grid"),
-        (M, "TV.C08.neighborhood_complete", "neighborhood(q, unit=groundDistanceToUnits(d)), q inside the extent, d >= 0, does not raise and returns every feature with a point within Euclidean distance d of q"),
+        (M, "TV.C08.neighborhood_complete", "groundDistanceToUnits(d) and neighborhood(q, unit=groundDistanceToUnits(d)), q inside the extent, d >= 0, do not raise and every feature with a point within Euclidean distance d of q is returned"),
         (M, "TV.C08.vertex_on_upper_border_raises", "formal side of finding D10: if the constructor returns, no point of a feature segment has x = xmax or y = ymax (so with margin 0 a right-/top-most vertex of a 2+-point track makes it raise)"),
-        (M, "TV.C08.point_query_on_upper_border_raises", "formal side of finding query-on-upper-border: request(q) with q.x = xmax or q.y = ymax raises IndexError on every built index"),
+        (M, "TV.C08.point_query_on_upper_border_raises", "formal side of finding query-on-upper-border: request(q) with q.x = xmax or q.y = ymax raises on every built index: IndexError when the extent is not flat, ZeroDivisionError (in __getCell) when it is"),
+        (M, "TV.C08.default_resolution_builds", "the repair 9a44198: default resolution, margin >= 0, bounding box not a single point: __init__ reaches the registration loop without raising for every aspect ratio, with >= 1 column and >= 1 row and a positive cell side on every axis of positive length"),
+        (M, "TV.C08.flat_extent_raises", "formal side of finding default-resolution-flat-extent: if the constructor returns over a collection that has a segment then xmin < xmax, ymin < ymax and no cell side is 0 (so a straight east-west or north-south track makes it raise ZeroDivisionError)"),
         (M, "TV.C08.isFloor_ratFloor", "Rat.floor, the driver's math.floor, satisfies the floor contract assumed by the theorems"),
     ]
     partial = []
     open_statements = [
         "theorems are over an ordered field with an exact floor: IEEE rounding in (x-xmin)/dX and in the straddle products is outside them (sampled by the flt stream with a 1e-7-cell guard)",
         "segment_query_complete / track_query_complete are conditional on the request returning (a query touching the upper border of the extent raises IndexError: finding query-on-upper-border)",
-        "index_complete and the theorems built on it speak about constructor calls that return: with margin 0 none does (finding vertex-on-upper-border); thin extents with the default resolution raise ZeroDivisionError (finding default-resolution-thin-extent)",
+        "index_complete and the theorems built on it speak about constructor calls that return: with margin 0 none does (finding vertex-on-upper-border), nor over a flat extent (all vertices on one horizontal or vertical line) when a feature has a segment (finding default-resolution-flat-extent, theorem flat_extent_raises); thin extents with the default resolution are ordinary since 9a44198 (theorem default_resolution_builds)",
         "the unit = -1 incremental searches of neighborhood and the given-unit segment/track neighbourhoods are modelled and compared with the implementation, no theorem is stated about them (the property does not mention them)",
     ]
     modelled = ("SpatialIndex.__init__ (extent from bbox + margin, explicit and default resolution), __getCell, "
@@ -300,7 +311,7 @@ class P(Prop):
                "rounding is outside the theorems, the flt-mode oracle keeps a guard of 1e-7 cell around cell borders"]
     rule = ("exhaustive: every segment between points of a half-integer lattice through __cellsCrossSegment, every 2-vertex track of a "
             "small lattice indexed and queried at every lattice point of the extent; random: 1-3 features (tracks or network edges) of 2-4 "
-            "vertices on a half-integer lattice, square / non-square / default resolutions, margins 1/2, 1/20, 1/4, 0, lattice queries "
+            "vertices on a half-integer lattice, square / non-square / default resolutions (the latter with aspect ratios from 1 to 400, i.e. down to one row or column), margins 1/2, 1/20, 1/4, 0, lattice queries "
             "(points, segments, tracks, cells, neighbourhoods in units and from ground distances 0..grid size), later addFeature calls; "
             "plus a float stream with random coordinates. non-trivial = the index is built (or its construction is the finding) and at "
             "least one feature segment and one query are present")
@@ -468,7 +479,7 @@ class P(Prop):
         extra = parts[2 + len(case["queries"]):]
         sc, pos = {}, 0
         for n, segs in ss:
-            sc[str(n)] = [None if t == "none" else cellsof(t) for t in extra[pos:pos + len(segs)]]
+            sc[str(n)] = [None if t == "none" else {"err": t} if t.startswith("err:") else cellsof(t) for t in extra[pos:pos + len(segs)]]
             pos += len(segs)
         out["scells"] = sc
         for q, t in zip(case["queries"], parts[2:2 + len(case["queries"])]):
@@ -673,8 +684,9 @@ class P(Prop):
         """classes of the listed findings, each a decidable predicate on the case and the first failure:
         vertex-on-upper-border: margin 0 and construction raises IndexError (a vertex with x = xmax or y = ymax of the
             extent gets column/row index csize/lsize)
-        default-resolution-thin-extent: resolution None, construction raises ZeroDivisionError and the smaller side of
-            the extent is less than 1/100 of the larger one (int(side / r) = 0)
+        default-resolution-flat-extent: resolution None, all vertices on one horizontal or vertical line (a side of the
+            bounding box is 0) and construction raises ZeroDivisionError (cell side 0 in __getCell, or r = 0 when the
+            bounding box is a single point)
         query-on-upper-border: a point/segment/track request having a point with x = xmax or y = ymax raises IndexError"""
         if not isinstance(impl_out, dict):
             return None
@@ -684,11 +696,10 @@ class P(Prop):
         tag, n, _ = f
         tw = exact_twin(case)
         if tag == "construction":
-            if impl_out["err"] == "err:zerodiv" and case["res"] is None and tw == "zerodiv":
+            if impl_out["err"] == "err:zerodiv" and case["res"] is None and (tw == "zerodiv" or flat_grid(tw)):
                 bb = case_bbox(case)
-                ax, ay = bb[1] - bb[0], bb[3] - bb[2]
-                if 100 * min(ax, ay) < max(ax, ay):
-                    return "default-resolution-thin-extent"
+                if bb[1] == bb[0] or bb[3] == bb[2]:
+                    return "default-resolution-flat-extent"
             if impl_out["err"] == "err:index" and tw not in (None, "zerodiv") and fr(case["margin"]) == 0:
                 xmax, ymax = tw[1], tw[3]
                 pts = [p for f in case["feats"] for p in f]
@@ -769,8 +780,15 @@ class P(Prop):
         for _ in range(40):
             margin = rng.choice(["1/2"] * 10 + ["1/20"] * 8 + ["1/4"] * 3 + ["0"])
             r = rng.random()
-            default = r < 0.05
-            if default:
+            default = r < 0.08
+            thin = default and rng.random() < 0.5
+            if thin:
+                # default resolution on a thin extent (ordinary since 9a44198): long side 8 lattice units, short side
+                # 1 or 2, rescaled below so that the extent is 100 x (1/4 .. 4) cells of the long axis
+                margin = "1/2"
+                W, H = rng.choice([(8, 1), (8, 2), (1, 8), (2, 8)])
+                nf, nv = rng.randrange(1, 3), (2, 4)
+            elif default:
                 margin = "1/2"
                 W, H = rng.choice([1, 2, 4, 8, 2.5, 5]), rng.choice([1, 2, 4, 8, 2.5, 5])
                 nf, nv = rng.randrange(1, 3), (2, 4)
@@ -793,6 +811,14 @@ class P(Prop):
                 # default resolution is exact when the larger side of the extent is 25, 50 or 100
                 k = rng.choice([12.5, 25, 50]) / max(W, H)
                 feats = [[[p[0] * k, p[1] * k] for p in f] for f in feats]
+                if thin:
+                    # squash the short axis: its extent becomes 1/4, 1/2, 1, 2 or 4 times r = (long extent)/100,
+                    # i.e. int(short / r) = 0 (one row/column by the max(1, .)), 1, 2 or 4
+                    r100 = 2 * k * max(W, H) / 100
+                    ax_short = r100 * rng.choice([0.25, 0.25, 0.5, 1, 2, 4])
+                    a = 0 if W < H else 1
+                    sq = ax_short / (2 * k * min(W, H))
+                    feats = [[[p[0] * (sq if a == 0 else 1), p[1] * (sq if a == 1 else 1)] for p in f] for f in feats]
             elif r < 0.5:
                 s = rng.choice([0.5, 1, 2])
                 res = [s, s]
@@ -800,7 +826,7 @@ class P(Prop):
                 res = [rng.choice([0.25, 0.5, 1, 2, 4]), rng.choice([0.25, 0.5, 1, 2, 4])]
             case = {"kind": "lattice", "net": rng.random() < 0.25, "feats": feats, "res": res, "margin": margin, "late": [], "queries": []}
             tw = exact_twin(case)
-            if tw in (None, "zerodiv"):
+            if tw in (None, "zerodiv") or flat_grid(tw):
                 if rng.random() < 0.05 and exact_case(case):
                     return case
                 continue
@@ -836,6 +862,12 @@ class P(Prop):
         if r < 0.1:
             res = None
             feats = [f[:3] for f in feats[:2]]
+            if rng.random() < 0.5:
+                # thin extent: aspect ratio around 30 .. 1000 (int(short / r) = 0 .. 3 rows or columns)
+                a, q = rng.randrange(2), rng.choice([30, 60, 90, 150, 400, 1000])
+                feats = [[[p[0] / (q if a == 0 else 1), p[1] / (q if a == 1 else 1)] for p in f] for f in feats]
+                if len({p[a] for f in feats for p in f}) < 2:
+                    return self.float_case(rng, tier)
         elif r < 0.5:
             s = round(min(ax, ay) / rng.choice([1.5, 3, 7, 12]), 3)
             res = [s, s]
@@ -845,7 +877,7 @@ class P(Prop):
             res = None
         case = {"kind": "float", "net": rng.random() < 0.2, "feats": feats, "res": res, "margin": margin, "late": [], "queries": []}
         tw = exact_twin(case)
-        if tw in (None, "zerodiv"):
+        if tw in (None, "zerodiv") or flat_grid(tw):
             return case
         if res is not None and (tw[4] * tw[5] > 4000 or max(tw[4], tw[5]) > 400):
             return self.float_case(rng, tier)      # keep the quadratic loops of the code affordable
@@ -902,7 +934,7 @@ class P(Prop):
                 for res in sizes:
                     case = {"kind": "track2", "net": False, "feats": [[a, b]], "res": list(res), "margin": "1/2", "late": [], "queries": []}
                     tw = exact_twin(case)
-                    if tw in (None, "zerodiv") or not self.precondition(case):
+                    if tw in (None, "zerodiv") or flat_grid(tw) or not self.precondition(case):
                         continue
                     case["queries"] = self.lattice_queries(tw, rng, case["feats"], tier, full=True)
                     if exact_case(case):
